@@ -108,9 +108,9 @@ def proof_leg(prop_module):
     rc, out = sh(["lake", "env", "lean", audit], cwd=LEAN, timeout=900)
     os.unlink(audit)
     found = {}
-    for m in re.finditer(r"'([^']+)' depends on axioms: \[([^\]]*)\]", out):
+    for m in re.finditer(r"'(\S+)' depends on axioms: \[([^\]]*)\]", out):
         found[m.group(1)] = {a.strip() for a in m.group(2).split(",") if a.strip()}
-    for m in re.finditer(r"'([^']+)' does not depend on any axioms", out):
+    for m in re.finditer(r"'(\S+)' does not depend on any axioms", out):
         found[m.group(1)] = set()
     for t in thms:
         if t not in found:
